@@ -191,13 +191,26 @@ def rules(rep, m):
                 offs[x["id"]] = x["name"]
         for vid, vn in offs.items():
             ws = [(k_, n_) for l, r_, k_, n_ in inv.stores(f) if strip(l, casts=True).get("ref", {}).get("id") == vid]
-            if not ws or any(k_ != "+=" for k_, n_ in ws):
+            if not ws or not any(k_ == "+=" for k_, n_ in ws) and not any(inv.in_loop(f, n_) for k_, n_ in ws):
                 continue
             loops = [lp for lp in walk(f.body) if lp["kind"] in ("ForStmt", "WhileStmt", "DoStmt") and
                      any(y is ws[0][1] for y in walk(lp))]
             if not loops:
                 continue
             outer = loops[0]
+            rets_using = [x for x in walk(outer) if x["kind"] == "ReturnStmt" and kids(x) and
+                          any(y["kind"] == "DeclRefExpr" and y["ref"]["id"] == vid for y in walk(x))]
+            if not rets_using:
+                continue
+            plain = [(k_, n_) for k_, n_ in ws if k_ != "+=" and any(y is n_ for y in walk(outer))]
+            for k_, n_ in plain:
+                r5.instance("%s: %s" % (f.name, render(n_)[:70]))
+                rep.finding(r5, f.name, "tail:offset-not-accumulated", "%s sets the offset '%s' with '%s' inside the retry loop: the "
+                            "shift of earlier tail rounds is forgotten, so no sample can lie beyond two tail starts" %
+                            (f.name, vn, render(n_)[:60]), where=m.rel(loc(n_)))
+                r5.fail()
+            if plain:
+                continue
             rets = [x for x in walk(outer) if x["kind"] == "ReturnStmt" and kids(x)]
             uses = [x for x in rets if any(y["kind"] == "DeclRefExpr" and y["ref"]["id"] == vid for y in walk(x))]
             if not uses:
